@@ -34,7 +34,7 @@ from .world import (
 )
 
 WASH = [1, 2, 3, 4, "flush", "reuse"]
-LABELS = [None, None, "", "step", "mix it", "µL-transfer", "x" * 30]
+LABELS = [None, None, "", "step", "mix it", "µL-transfer", "x" * 30, "last", "first"]
 LCS = ["", "Water", "Water_DispZmax-1_AspZmax-1", "DMSO free", "ä-class"]
 
 
